@@ -54,7 +54,7 @@ fn parse_with(vm: &pest_vm::Vm, rule: &str, input: &str, limit: usize) -> (Res, 
 
 const HUGE: usize = usize::MAX / 2;
 
-fn check_case(rep: &mut Report, text: &str, vm: &pest_vm::Vm, rule: &str, input: &str, max_n: usize) {
+fn check_case(rep: &mut Report, text: &str, optimized: &[pest_meta::optimizer::OptimizedRule], vm: &pest_vm::Vm, rule: &str, input: &str, max_n: usize) {
     let (r_inf, n, _) = parse_with(vm, rule, input, HUGE);
     if matches!(r_inf, Res::Panic) {
         rep.count("skipped_unlimited_parse_panics");
@@ -95,6 +95,41 @@ fn check_case(rep: &mut Report, text: &str, vm: &pest_vm::Vm, rule: &str, input:
         }
     }
     rep.add("limits_that_tripped", tripped);
+    // The limit is a process-wide knob: somebody may change it while a parse is running. A parse that
+    // started under limit L must still return the unlimited result or the limit error. The VM's
+    // listener (called at every rule entry, on the parsing thread) changes the knob at entry k.
+    if tripped > 0 && n >= 4 && !matches!(r_inf, Res::Panic) {
+        let h = hash_bytes(&[text.as_bytes(), rule.as_bytes(), input.as_bytes()]);
+        for t in 0..4u64 {
+            let l = 1 + ((h >> (8 * t)) as usize % n);
+            let k = 1 + ((h >> (8 * t + 4)) as usize % 6);
+            let new_limit = if t % 2 == 0 { 0 } else { l + 1 + (h as usize % 5) };
+            let counter = std::sync::Arc::new(std::sync::atomic::AtomicUsize::new(0));
+            let c2 = counter.clone();
+            let vm2 = pest_vm::Vm::new_with_listener(
+                optimized.to_vec(),
+                Box::new(move |_, _| {
+                    if c2.fetch_add(1, std::sync::atomic::Ordering::SeqCst) + 1 == k {
+                        pest::set_call_limit(NonZeroUsize::new(new_limit));
+                    }
+                    false
+                }),
+            );
+            rep.count("evaluations");
+            rep.count("limit_changed_mid_parse");
+            let (r_l, _, refused) = parse_with(&vm2, rule, input, l);
+            if counter.load(std::sync::atomic::Ordering::SeqCst) < k {
+                continue;
+            }
+            if !(r_l == r_inf || matches!(r_l, Res::Limit)) {
+                rep.violation(json!({"property":"C12","config":config_name(),"grammar":text,"rule":rule,"input":input,"limit":l,"calls_needed":n,
+                    "limit_changed_to": new_limit, "changed_at_rule_entry": k, "refusals_observed": refused,
+                    "why": "the limit knob was changed while the parse was running; the result is neither the unlimited result nor the call-limit error",
+                    "expected": show(&r_inf), "observed": show(&r_l)}));
+                break;
+            }
+        }
+    }
     if n >= 8 && tripped > 0 {
         let kind = match r_inf {
             Res::Ok(_) => "ok",
@@ -111,8 +146,8 @@ pub fn run(args: &Args) {
         let v: Value = serde_json::from_str(&std::fs::read_to_string(path).expect("replay file")).expect("json");
         let w = if v["witness"].is_object() { v["witness"].clone() } else { v.clone() };
         if let Ok((_, opt)) = read_grammar(w["grammar"].as_str().unwrap()) {
-            let vm = pest_vm::Vm::new(opt);
-            check_case(&mut rep, w["grammar"].as_str().unwrap(), &vm, w["rule"].as_str().unwrap(), w["input"].as_str().unwrap(), 100_000);
+            let vm = pest_vm::Vm::new(opt.clone());
+            check_case(&mut rep, w["grammar"].as_str().unwrap(), &opt, &vm, w["rule"].as_str().unwrap(), w["input"].as_str().unwrap(), 100_000);
         }
         rep.finish(args);
         return;
@@ -123,8 +158,8 @@ pub fn run(args: &Args) {
             if let (Some(g), Some(r), Some(i)) = (k.witness["grammar"].as_str(), k.witness["rule"].as_str(), k.witness["input"].as_str()) {
                 if let Ok((_, opt)) = read_grammar(g) {
                     rep.count("known_witnesses_replayed");
-                    let vm = pest_vm::Vm::new(opt);
-                    check_case(&mut rep, g, &vm, r, i, 100_000);
+                    let vm = pest_vm::Vm::new(opt.clone());
+                    check_case(&mut rep, g, &opt, &vm, r, i, 100_000);
                 }
             }
         }
@@ -146,7 +181,7 @@ pub fn run(args: &Args) {
         };
         // grammars the reference cannot finish are not handed to the engine without a limit
         let (inputs, _, _) = vmon::inputs::inputs_for(&ast, &mut grng, 14, 2, 30);
-        let vm = pest_vm::Vm::new(optimized);
+        let vm = pest_vm::Vm::new(optimized.clone());
         rep.count("grammars_used");
         for r in &ast {
             for input in inputs.iter().filter(|i| i.len() <= 24) {
@@ -157,7 +192,7 @@ pub fn run(args: &Args) {
                     continue;
                 }
                 rep.journal(|| json!({"grammar": text, "rule": r.name, "input": input}));
-                check_case(&mut rep, &text, &vm, &r.name, input, 400);
+                check_case(&mut rep, &text, &optimized, &vm, &r.name, input, 400);
             }
         }
     }
